@@ -8,6 +8,7 @@ import TJ.Props.C02Gen
 import TJ.Props.C17Gen
 import TJ.Props.C15Gen
 import TJ.Props.C08Gen
+import TJ.Props.C16Gen
 import TJ.Props.C12Gen
 import TJ.Props.C10Gen
 namespace TJ.Props.NonVacuous
@@ -143,5 +144,44 @@ example : ∃ fuel st1 st2, callFun prog fuel idx_tinyjambu_hkdf_extract false [
     0 1 2 3 4 (Array.replicate 72 (0, .undef)) _ _ (Array.replicate 64 (0, .undef)) 0 0 0 0 0 0 8 0 0 40 (mkPtr 4 (0 + 0)) [1, 2, 3] [9, 8] [7] [5, 40, 0]
     (by intro n hn; simp at hn; rcases hn with h | h | h <;> omega) rfl rfl rfl rfl (by decide) (by decide) (by decide) (by simp) (by simp [ptrBase]) (by simp [ptrBase]) (by simp [ptrBase])
     (by simp [ptrBase]) (bytesV_lab _ _ (by decide)) (bytesV_lab _ _ (by decide)) (by simp) (Or.inr ⟨_, rfl, bytesV_lab _ _ (by decide), rfl, by decide, by decide, by simp [ptrBase]⟩) (by simp)
+
+open TJ.Props.C15Gen TJ.Props.C16Gen in
+/-- a 96-byte PRNG object (undefined), a 64-byte output buffer, an input buffer with the personalisation string / feed data [1,2,3] -/
+def memP : Array Block :=
+  #[⟨Array.replicate 96 (0, .undef), 0⟩, ⟨Array.replicate 64 (0, .undef), 0⟩, ⟨([1, 2, 3] : Bytes).map (·, Lab.pub) |>.toArray, 0⟩]
+
+open TJ.Props.C15Gen TJ.Props.C16Gen in
+def geoP : PGeo :=
+  { bp := 0, bd := 1, bi := 2, baseP := 0, based := 0, basei := 0, doff := 4, cap := 50, xsz := 96, dsz := 64, XI := ([1, 2, 3] : Bytes).map (·, Lab.pub) |>.toArray, ud := 5, msz := 3,
+    hpd := by decide, hpi := by decide, hdi := by decide, hal := by decide, hltP := by simp [ptrBase], hltD := by simp [ptrBase], hltI := by simp [ptrBase], hin := by decide, hsz := by decide }
+
+open TJ.Props.C15Gen TJ.Props.C16Gen in
+/-- `TJ.Props.C16Gen.init_then_history_source` on a concrete memory: `init_user` with a callback that delivers 32 bytes, then 7 bytes (short), then nothing; the history
+    generate 40, feed [2,3], reseed, set-limit 64, generate 33, reseed, generate 50 -/
+example : ∃ fuel st0 ret p0 e0 p' e' t st', Prng.initUser .user true [1, 2, 3] ⟨[⟨List.replicate 32 7, 32⟩, ⟨List.replicate 7 9, 7⟩], [], 0⟩ = some (ret, p0, e0) ∧
+    callFun prog fuel idx_tinyjambu_prng_init_user true [(mkPtr 0 0, .pub), (userCb, .pub), (5, .pub), (mkPtr 2 (0 + 0), .pub), (3, .pub)]
+      ⟨memP, script ⟨[⟨List.replicate 32 7, 32⟩, ⟨List.replicate 7 9, 7⟩], [], 0⟩, []⟩ =
+      .ok .normal #[(ret.toNat, .pub), (mkPtr 0 0, .pub), (userCb, .pub), (5, .pub), (mkPtr 2 (0 + 0), .pub), (3, .pub)] st0 ∧
+    p0.runOps e0 [.gen 40, .feed [2, 3], .reseed, .limit 64, .gen 33, .reseed, .gen 50] = some (p', e', t) ∧
+    PRun geoP st0 [.gen 40, .feed [2, 3], .reseed, .limit 64, .gen 33, .reseed, .gen 50] st' ∧ bounded 0 32 t := by
+  obtain ⟨fuel, st0, ret, p0, e0, p', e', t, st', h1, h2, h3, h4, _, h6⟩ := init_then_history_source geoP
+    ⟨memP, script ⟨[⟨List.replicate 32 7, 32⟩, ⟨List.replicate 7 9, 7⟩], [], 0⟩, []⟩ (Array.replicate 96 (0, .undef)) (Array.replicate 64 (0, .undef)) 0 [1, 2, 3]
+    ⟨[⟨List.replicate 32 7, 32⟩, ⟨List.replicate 7 9, 7⟩], [], 0⟩ true [.gen 40, .feed [2, 3], .reseed, .limit 64, .gen 33, .reseed, .gen 50]
+    (by intro d hd; simp at hd; rcases hd with h | h <;> subst h <;> simp) rfl rfl (by simp [geoP]) (by decide) (by decide) rfl (by simp [geoP]) rfl (bytesV_lab _ _ (by decide)) rfl
+    (by
+      intro op hop
+      simp only [List.mem_cons, List.mem_nil_iff, or_false] at hop
+      rcases hop with h | h | h | h | h | h | h <;> subst h
+      · show 40 ≤ 50; decide
+      · exact ⟨1, ⟨by simp [geoP], fun k b hk => by
+          match k, hk with
+          | 0, hk => exact ⟨.pub, by simp at hk; subst hk; rfl, by decide⟩
+          | 1, hk => exact ⟨.pub, by simp at hk; subst hk; rfl, by decide⟩⟩⟩
+      · trivial
+      · show 64 < 18446744073709551616; decide
+      · show 33 ≤ 50; decide
+      · trivial
+      · show 50 ≤ 50; decide)
+  exact ⟨fuel, st0, ret, p0, e0, p', e', t, st', h1, h2, h3, h4, h6⟩
 
 end TJ.Props.NonVacuous
